@@ -147,6 +147,51 @@ def _shapes(_):
     return st
 
 
+def _four_cols(_):
+    """four feature columns with pairwise different partitions, orders 2..4, all caps; then a SECOND batch in the same process state with a binding cap
+    (the fair sampler reorders the candidates between batches; every column must still carry the values of the features in ITS name)"""
+    st = Stats()
+    cols = ['a', 'b', 'c', 'd', 'label']
+    f1 = [['0', '0', '0', '0', '0'], ['0', '1', '0', '1', '1'], ['1', '0', '2', '1', '0'], ['1', '1', '2', '0', '1'], ['2', '0', '0', '2', '0'], ['2', '1', '1', '0', '1']]
+    f2 = [[r[2], r[0], r[3], r[1], r[4]] for r in reversed(f1)]
+    for order in (2, 3, 4):
+        for cap in (1, 2, 3, 2 ** 15):
+            st.count('evaluations')
+            st.count('nontrivial')
+            st.count('four_column_cases')
+            for sig, msg in judge(cols, f1, order, cap):
+                st.violation({'columns': cols, 'rows': f1, 'order': order, 'cap': cap}, msg, dict(sig, four=True))
+            # second and third batch without resetting the process state
+            for rows in (f2, f1):
+                ok, res = safe(_combine_noreset, cols, rows, order, cap)
+                st.count('evaluations')
+                if not ok:
+                    st.violation({'columns': cols, 'rows': rows, 'order': order, 'cap': cap, 'second_batch': True}, f'later batch raised {res}', {'kind': 'exception', 'four': True})
+                    break
+                bad = _patterns_ok(cols, rows, res)
+                if bad:
+                    st.violation({'columns': cols, 'rows': rows, 'order': order, 'cap': cap, 'second_batch': True}, 'later batch in the same process state: ' + bad, {'kind': 'aliasing_later_batch', 'four': True})
+                    break
+    return st
+
+
+def _combine_noreset(columns, rows, order, cap):
+    import pandas as pd
+    from outrank import core_ranking as cr
+    df = pd.DataFrame([list(r) for r in rows], columns=list(columns))
+    args = harness.make_args(interaction_order=order, combination_number_upper_bound=cap, heuristic='MI-numba-randomized')
+    return cr.compute_combined_features(df, args, harness.NullBar())
+
+
+def _patterns_ok(columns, rows, out):
+    for name in out.columns[len(columns):]:
+        cons = name.split(' AND ')
+        tuples = [tuple(str(r[columns.index(c)]) for c in cons) for r in rows]
+        if pattern(out[name].tolist()) != pattern(tuples):
+            return f'{name}: values have equality pattern {pattern(out[name].tolist())}, the value tuples of {cons} have {pattern(tuples)}'
+    return ''
+
+
 def _ints(_):
     st = Stats()
     cols = ['F1', 'F2', 'F3', 'label']
@@ -293,6 +338,8 @@ def _dispatch(item):
         return _long_values(job)
     if k == 'shapes':
         return _shapes(job)
+    if k == 'four':
+        return _four_cols(job)
     if k == 'birthday':
         return _birthday(job)
     return {'two': _two_col, 'multi': _multi_col, 'ints': _ints, 'scoring': _scoring}[k](job)
@@ -310,7 +357,7 @@ def run(ctx):
         lim = np_ if (ctx.thorough or k == 3) else 600
         jobs += [('multi', (k, lo, hi)) for lo, hi in shards(lim, 48)]
     jobs += [('ints', None), ('scoring', None), ('birthday', None)]
-    jobs += [('seqdiff', (2, 2 ** 15)), ('seqdiff', (3, 2 ** 15)), ('long', None), ('shapes', None)]
+    jobs += [('seqdiff', (2, 2 ** 15)), ('seqdiff', (3, 2 ** 15)), ('long', None), ('shapes', None), ('four', None)]
     for st in pmap(_dispatch, jobs):
         ctx.stats.merge(st)
     ctx.extra['rows_two_column_family'] = nrows
@@ -321,6 +368,8 @@ def run(ctx):
 
 
 def eval_case(case):
+    if case.get('second_batch'):
+        return [v['what'] for v in _four_cols(None).violations]
     if case.get('kind') == 'seqdiff':
         return seqdiff.replay(seq_call, seq_menu(tuple(case['job'])), case['seq'])
     if case.get('kind') == 'birthday':
